@@ -25,7 +25,9 @@ def run(rep):
     runs += [["slowreply", lib, ch, "ms=400", "kind=unit"] for lib in gen_impl.LIBS for ch in (0, 2)]
     runs += [["slowreply", lib, ch, "ms=%d" % (5600 if rep.tier == "quick" else 12000)]
              for lib in (("std",) if rep.tier == "quick" else gen_impl.LIBS) for ch in ((0, 1) if rep.tier == "quick" else (0, 1, 2))]
-    rt_common.impl_side(rep, PID, runs, lambda a, d: probe.oracle_mixed(d) if a[0] == "mixed" else
+    # accepted calls still queued when a self-consuming call arrives (queue filled to its capacity): each of them runs, once, before the hand-over
+    runs += [["consume", lib, ch, "handles=1", "pending=%d" % (ch or 3)] for lib in gen_impl.LIBS for ch in ((0, 2) if rep.tier == "quick" else (0, 1, 2, 3))]
+    rt_common.impl_side(rep, PID, runs, lambda a, d: probe.oracle_mixed(d) if a[0] == "mixed" else probe.oracle_consume(d) if a[0] == "consume" else
                         probe.oracle_slowreply(d) if a[0] == "slowreply" else probe.oracle_burst(d, None if a[2] == 0 else a[2]))
 
 
